@@ -403,7 +403,8 @@ Next ==
   \/ Tick \/ Hour \/ StartCall \/ NotifyCall \/ CloseCall
   \/ LoopInit \/ (\E tg \in {"tick", "notify", "reachtrig", "relay", "reach"} : Take(tg)) \/ Read \/ CommitStep \/ Exit
 LoopStep == LoopInit \/ (\E tg \in {"tick", "notify", "reachtrig", "relay", "reach"} : Take(tg)) \/ Read \/ CommitStep \/ Exit
-FairSpec == Init /\ [][Next]_vars /\ WF_vars(Tick) /\ WF_vars(LoopStep)
+\* Go's select picks uniformly among the ready cases: a case that is ready again and again is eventually taken (SF)
+FairSpec == Init /\ [][Next]_vars /\ WF_vars(Tick) /\ WF_vars(LoopStep) /\ SF_vars(Exit)
 
 (* ------------------------------ the statement ------------------------------ *)
 Reaches == {"unknown", "public", "private"}
